@@ -138,6 +138,7 @@ pub fn gen_case(seed: u64, idx: u64, corpus: &Corpus) -> Case {
         words.push(match r.below(10) { 0 | 1 | 2 if !corpus.words.is_empty() => r.pick(&corpus.words).clone(), 3 => degenerate_word(&mut r), 4 => noise(&mut r, 12), _ => rand_word(&mut r, &wc) });
     }
     if r.chance(1, 8) { let a = words[0].clone(); let b = rand_word(&mut r, &wc); words[0] = format!("{a} {b}"); }
+    let mut late_from: Option<Vec<String>> = None;
     let (groups, fam): (Vec<Vec<String>>, &'static str) = match family {
         0 | 1 | 2 | 3 => {
             let ng = r.range(1, 2);
@@ -152,7 +153,16 @@ pub fn gen_case(seed: u64, idx: u64, corpus: &Corpus) -> Case {
         9 if idx % 2 == 0 => {
             // what the other properties' monitors generate (their templates, identity rules, shorthands, tier rules, rule lists,
             // planted rules with words instantiated from them): C02's workload is meant to be the union of theirs
-            match r.below(7) {
+            match r.below(8) {
+                7 => {
+                    // many features set at once make a segment far from every base phone; a `+` romaniser then has to find the nearest one
+                    let mut fs: Vec<usize> = (0..26).collect(); r.shuffle(&mut fs); fs.truncate(r.range(10, 26));
+                    let body: Vec<String> = fs.iter().map(|f| format!("{}{}", if r.chance(2, 3) { '+' } else { '-' }, crate::c04::F[*f].0)).collect();
+                    let nodes = ["", ", +lab", ", +cor", ", +dor", ", +phr", ", +lab, +cor, +dor, +phr"][r.below(6)];
+                    words = vec![rand_word(&mut r, &wc)];
+                    late_from = Some(vec![[ "[+cons] > +@{acute}", "V > +x", "[-voice] > +@{under dot}", "C > +h" ][r.below(4)].to_string()]);
+                    (vec![vec![format!("{} > [{}{nodes}]", ["a", "V", "C", "[]", "t"][r.below(5)], body.join(", "))]], "monitor-templates")
+                }
                 0 => { let c = crate::c08::gen(&mut r, &corpus.rules); words = vec![c.word]; (c.rules.into_iter().map(|x| vec![x]).collect(), "monitor-templates") }
                 1 => { let c = crate::c07::gen(&mut r); words = vec![c.word]; (vec![vec![c.rule]], "monitor-templates") }
                 2 => { let c = crate::c12::gen(&mut r); words = c.words; (vec![if r.chance(1, 2) { c.short } else { c.long }], "monitor-templates") }
@@ -165,6 +175,7 @@ pub fn gen_case(seed: u64, idx: u64, corpus: &Corpus) -> Case {
         _ => { let base = if corpus.rules.is_empty() { "a > e".to_string() } else { r.pick(&corpus.rules).clone() }; (vec![vec![base], vec![], vec![";; comment".into(), "".into()]], "corpus") }
     };
     let mut into = Vec::new(); let mut from = Vec::new();
+    if let Some(f) = late_from { from = f; }
     if r.chance(1, 6) { for _ in 0..r.range(1, 2) { from.push(if r.chance(1, 5) { noise(&mut r, 14) } else { alias_line(&mut r, false) }); } }
     if r.chance(1, 8) { for _ in 0..r.range(1, 2) { into.push(if r.chance(1, 5) { noise(&mut r, 14) } else { alias_line(&mut r, true) }); } }
     Case { groups, words, into, from, entry: r.below(3) as u8, family: fam }
